@@ -32,3 +32,15 @@ Fixpoint mismatches_from (k : nat) (db : database) (cs : list (query * answer)) 
       else k :: mismatches_from (S k) db r
   end.
 Definition mismatches := mismatches_from 0.
+
+(* operator-level cases: (interval, first, last, fill mode, columns, chunks of one group's rows, output of the real
+   FillTransform's specification twin). Returns the indices on which the L2 machine differs. *)
+Definition opcase := (Z * Z * Z * fillmode * list aggcol * list (list arow) * list arow)%type.
+Fixpoint op_mismatches_from (k : nat) (cs : list opcase) : list nat :=
+  match cs with
+  | [] => []
+  | (i, first, last, m, aggs, chunks, want) :: r =>
+      if list_eqb arow_eqb (fill_group_chunks i first last m aggs chunks) want then op_mismatches_from (S k) r
+      else k :: op_mismatches_from (S k) r
+  end.
+Definition op_mismatches := op_mismatches_from 0.
